@@ -132,14 +132,14 @@ func (s *concStore) Destroy(ctx context.Context, _ resource.Type, _ resource.Poi
 // initial load and must all wait for it.
 func (s *concStore) Load(_ context.Context, h inmem.LoadHandler) error {
 	for _, r := range s.preload {
-		time.Sleep(200 * time.Microsecond)
+		time.Sleep(time.Millisecond)
 
 		if err := h(r.Metadata().Type(), r.DeepCopy()); err != nil {
 			return err
 		}
 	}
 
-	time.Sleep(200 * time.Microsecond)
+	time.Sleep(time.Millisecond)
 
 	return nil
 }
